@@ -600,3 +600,476 @@ def handle_exception_unit():
 
 
 ALL += [process_result_unit, complete_with_error_unit, handle_cancellation_unit, handle_exception_unit]
+
+
+# ----------------------------------------------------------------------------- CompleteStage
+CS = H + "complete_stage.handler:CompleteStageHandler."
+
+
+def _havoc_execution_stages(I, stage):
+    ex = I.getattr(stage, "execution")
+    n = T._counter(I, "replan_n")
+    from pyvc.typesys import fresh_value
+
+    I.st.objs[ex.oid].fields["stages"] = fresh_value(I.st, I.typer, ("list", ("obj", "StageExecution")), f"stages_after_plan{n}", det=True)
+
+
+def complete_stage_registry():
+    reg = run_task_registry()
+
+    def plan_after(I, a, k):
+        I.st.emit("standalone", op="plan_synthetic_stages", args=[a[1]], kwargs={}, in_txn=I.st.ghost.get("open_txn"))
+        _havoc_execution_stages(I, a[1])
+        return SNone
+
+    def plan_on_failure(I, a, k):
+        from pyvc.values import SBool, fresh_bool
+
+        I.st.emit("standalone", op="plan_synthetic_stages", args=[a[1]], kwargs={}, in_txn=I.st.ghost.get("open_txn"))
+        _havoc_execution_stages(I, a[1])
+        return SBool(fresh_bool("has_on_failure"))
+
+    def cleanup(I, a, k):
+        I.st.emit("user_code", what="on_cleanup")
+        return SNone
+
+    def split(I, a, k):
+        """assumed here, proved on the real body in unit L3/_apply_split_logic: the two results partition the downstream
+        list, and a non-empty downstream list activates at least one branch."""
+        from pyvc.values import Seg, SElem, fresh_int
+
+        down = a[2]
+        lid = down.lid
+        n = I.ops.list_len(down)
+        act = z3.Array(fresh_name_("activated"), z3.IntSort(), z3.BoolSort())
+        g1, g2 = fresh_int("g"), fresh_int("g")
+        a_list = I.ops.new_derived([Seg(lid, (), n, g1, z3.Select(act, g1), SElem(lid, (g1,)))])
+        s_list = I.ops.new_derived([Seg(lid, (), n, g2, z3.Not(z3.Select(act, g2)), SElem(lid, (g2,)))])
+        I.st.assume(z3.Implies(n > 0, I.ops.list_len(a_list) > 0))
+        from pyvc.values import STuple
+
+        return STuple([a_list, s_list])
+
+    def side_store(name):
+        def f(I, a, k):
+            I.st.emit("standalone", op=name, args=list(a[1:]), kwargs={}, in_txn=I.st.ghost.get("open_txn"))
+            if I.st.choose("concurrency_error"):
+                T.raise_exc(I, "ConcurrencyError", "stabilize.errors")
+            return SNone
+        return f
+
+    def determine_status(I, a, k):
+        """contract proved on the real StageExecution.determine_status (unit C05/determine_status): any status but REDIRECT."""
+        from pyvc.values import ENUMS
+
+        t = z3.Const(fresh_name_("determined_status"), ENUMS.sort(WS))
+        I.st.assume(t != status(I, "REDIRECT"))
+        return SEnum(WS, t)
+
+    reg.contracts["stabilize.models.stage.stage:StageExecution.determine_status"] = determine_status
+    reg.contracts["*._plan_after_stages"] = plan_after
+    reg.contracts["*._plan_on_failure_stages"] = plan_on_failure
+    reg.contracts["*._invoke_task_cleanup"] = cleanup
+    reg.contracts["*._apply_split_logic"] = split
+    reg.contracts["*._record_activated_branches"] = side_store("record_activated_branches")
+    reg.contracts["*._update_join_tracking"] = side_store("update_join_tracking")
+    return reg
+
+
+def fresh_name_(p):
+    from pyvc.values import fresh_name
+
+    return fresh_name(p)
+
+
+def _addressed_stage_stores(ctx, txn=None):
+    stage = loaded_stage(ctx)
+    out = []
+    for e, g in P.stores(ctx):
+        if isinstance(e.data.get("stage"), SObj) and stage is not None and e.data["stage"].oid == stage.oid:
+            if txn is None or e.data.get("txn") == txn.tid:
+                out.append((e, g))
+    return out
+
+
+def _cs_guard(ctx):
+    """C02: CompleteStage changes the stage only if it was loaded RUNNING; for a stage already halted it only re-sends
+    the (idempotent) completion notice; otherwise it only marks the message."""
+    I = ctx.I
+    stage = loaded_stage(ctx)
+    if stage is None:
+        return []
+    ld = T.loaded_info(I, stage)["status"].t
+    running = ld == status(I, "RUNNING")
+    goals = []
+    changing = [e for e, _ in T.flat(ctx.st.effects) if e.kind in ("store_stage", "standalone", "event", "user_code")]
+    if changing:
+        goals.append(("acts-only-when-running", running))
+    ps = [e for e, _ in T.flat(ctx.st.effects) if e.kind == "push" and not e.data["cls"].startswith("Invalid")]
+    if ps and not changing:
+        ok = all(p.data["cls"] in ("CompleteWorkflow", "CompleteStage") for p in ps)
+        goals.append(("notice-only-when-halted", z3.And(z3.BoolVal(ok), z3.Or(running, in_set(ld, I, ("TERMINAL", "CANCELED", "STOPPED"))))))
+    return goals
+
+
+def _cs_absorbing(ctx, t):
+    """T1 alternative: the commit stores the addressed stage with a status other than RUNNING, after which the entry
+    guard of this handler makes every redelivery a no-op or an idempotent notice."""
+    I = ctx.I
+    ss = _addressed_stage_stores(ctx, t)
+    if not ss:
+        return FALSE
+    return z3.And(*[e.data["snap"]["status"].t != status(I, "RUNNING") for e, _ in ss])
+
+
+def t1_or_absorbing(absorbing):
+    def check(ctx):
+        I = ctx.I
+        truthy, mid = P.msg_id_truthy(ctx)
+        goals = []
+        for t in P.committed_txns(ctx):
+            if not P._has_write(t):
+                continue
+            marks = [e for e in t.effects if e.kind == "mark"]
+            has = z3.Or(*[I.ops.eq(e.data["message_id"], mid) for e in marks]) if marks else FALSE
+            goals.append((f"txn{t.tid}", z3.Implies(truthy, z3.Or(has, absorbing(ctx, t)))))
+        return goals
+    return check
+
+
+def _cs_downstream_only_when_continuable(ctx):
+    """C03: StartStage / SkipStage for the stages downstream of the completing stage is pushed only in a commit that
+    stores a continuable status (and never on the blocking-failure conversion)."""
+    I = ctx.I
+    goals = []
+    down_lids = {e.data["obj"].lid for e in ctx.st.effects if e.kind == "load" and e.data["kind"] == "stage_list" and e.data["how"] == "downstream"}
+    for t in P.committed_txns(ctx):
+        n = 0
+        for e in t.effects:
+            if e.kind != "foreach" or e.data["lid"] not in down_lids:
+                continue
+            for b, g in T.flat([e]):
+                if b.kind == "push" and b.data["cls"] in ("StartStage", "SkipStage"):
+                    ss = _addressed_stage_stores(ctx, t)
+                    ok = z3.And(*[in_set(s.data["snap"]["status"].t, I, ("SUCCEEDED", "FAILED_CONTINUE", "SKIPPED")) for s, _ in ss]) if ss else FALSE
+                    goals.append((f"txn{t.tid}.push{n}", ok))
+                    n += 1
+    return goals
+
+
+def _cs_t2(ctx):
+    """T2: the commit that stores a complete status for the stage carries a continuation: downstream StartStage/SkipStage,
+    ContinueParentStage, CompleteWorkflow, a parent CompleteStage, or (failure) CancelStage plus CompleteWorkflow/parent."""
+    I = ctx.I
+    goals = []
+    for t in P.committed_txns(ctx):
+        ss = _addressed_stage_stores(ctx, t)
+        if not ss:
+            continue
+        stt = ss[0][0].data["snap"]["status"].t
+        complete = is_complete(I, stt)
+        ps = [b for e in t.effects for b, _ in T.flat([e]) if b.kind == "push"]
+        stage = ss[0][0].data["stage"]
+        phase_set = z3.Not(I.ops.is_none(I.getattr(stage, "synthetic_stage_owner")))
+        no_parent = z3.Not(I.ops.truthy(I.getattr(stage, "parent_stage_id")))
+        if not ps:
+            goals.append((f"txn{t.tid}.continuation", z3.Or(z3.Not(complete), z3.And(phase_set, no_parent))))
+        halt = in_set(stt, I, ("TERMINAL", "CANCELED", "STOPPED"))
+        kinds = {p.data["cls"] for p in ps}
+        if ps:
+            goals.append((f"txn{t.tid}.failure-cancels", z3.Implies(halt, z3.BoolVal("CancelStage" in kinds and bool(kinds & {"CompleteWorkflow", "CompleteStage"})))))
+    return goals
+
+
+def _cs_events(ctx):
+    """C13/C12: a commit that stores a complete status for the stage records its completion event inside the same
+    transaction (when a recorder is configured), and the event is never recorded outside a transaction."""
+    I = ctx.I
+    h = ctx.extra["handler"]
+    rec_absent = I.st.objs[h.oid].fields["_event_recorder"].isnone
+    goals = []
+    evs = [e for e in ctx.st.effects if e.kind == "event" and e.data["kind"] in ("record_stage_completed", "record_stage_failed", "record_stage_skipped")]
+    for n, e in enumerate(evs):
+        goals.append((f"event{n}.inside-txn", z3.BoolVal(e.data.get("in_txn") is not None)))
+    for t in P.committed_txns(ctx):
+        ss = _addressed_stage_stores(ctx, t)
+        if not ss:
+            continue
+        stt = ss[0][0].data["snap"]["status"].t
+        has_ev = any(e.data.get("in_txn") == t.tid for e in evs)
+        goals.append((f"txn{t.tid}.event-with-completion", z3.Implies(z3.And(is_complete(I, stt), z3.Not(rec_absent)), z3.BoolVal(has_ev))))
+        for e in evs:
+            if e.data.get("in_txn") == t.tid and e.data.get("status") is not None:
+                goals.append((f"txn{t.tid}.event-status", e.data["status"].t == stt))
+    return goals
+
+
+def complete_stage():
+    obls = [
+        Obl("C02/guard/CompleteStage", _cs_guard, when="any"),
+        Obl("C01/T1/CompleteStage", t1_or_absorbing(_cs_absorbing), when="any"),
+        Obl("C02/T1/CompleteStage", t1_or_absorbing(_cs_absorbing), when="any"),
+        Obl("C09/T1/CompleteStage", t1_or_absorbing(_cs_absorbing), when="any"),
+        Obl("C01/T7/CompleteStage", P.t7_no_split, when="any"),
+        Obl("C03/push/continuable-only", _cs_downstream_only_when_continuable, when="any"),
+        Obl("C05/T2/CompleteStage", _cs_t2, when="any"),
+        Obl("C05/T2b/CompleteStage", P.no_push_after_commit, when="any"),
+        Obl("C06/T3/CompleteStage", P.t3_legal_write(), when="any"),
+        Obl("C06/stage-never-redirect/CompleteStage", P.stage_status_never_redirect, when="any"),
+        Obl("C13/T4/CompleteStage", _cs_events, when="any"),
+        Obl("C12/T4/CompleteStage", _cs_events, when="any"),
+    ]
+    return handler_unit("*", "L2/CompleteStage", H + "complete_stage.handler:CompleteStageHandler", "CompleteStage", obls,
+                        extra=lambda I: {"task_registry": SNone}, registry=complete_stage_registry())
+
+
+ALL.append(complete_stage)
+
+
+# ----------------------------------------------------------------------------- StartStage
+def start_stage_registry():
+    from pyvc.values import SBool, fresh_bool
+    from .assumed_runtask import new_exception
+
+    reg = run_task_registry()
+
+    def cond(name):
+        def f(I, a, k):
+            b = fresh_bool(name)
+            I.st.emit("condition", name=name, result=b)
+            return SBool(b)
+        return f
+
+    for n in ("_should_skip", "_is_milestone_expired", "_is_mutex_blocked", "_is_deferred_choice_claimed", "_is_after_start_time_expiry"):
+        reg.contracts["*." + n] = cond(n)
+
+    def plan_stage(I, a, k):
+        """opaque: stage builders (user code) + synthetic stages persisted through repository.add_stage + context merge."""
+        stage = a[1]
+        I.st.emit("plan", stage=stage, in_txn=I.st.ghost.get("open_txn"))
+        I.st.emit("standalone", op="plan_synthetic_stages", args=[stage], kwargs={}, in_txn=I.st.ghost.get("open_txn"))
+        if I.st.choose("planning_fails"):
+            raise PyRaise_(new_exception(I, "planning_error"))
+        from pyvc.typesys import fresh_value
+
+        n = T._counter(I, "plan_n")
+        I.st.objs[stage.oid].fields["tasks"] = fresh_value(I.st, I.typer, ("list", ("obj", "TaskExecution")), f"planned_tasks{n}", det=True)
+        return SNone
+
+    reg.contracts["*._plan_stage"] = plan_stage
+
+    def readiness(I, a, k):
+        """contract of evaluate_readiness (proved in C03/readiness): any phase; the call is recorded."""
+        stage, ups = a[0], a[1]
+        bypass = a[2] if len(a) > 2 else k.get("jump_bypass", SBool(FALSE))
+        r = T.new_symbolic(I, "ReadinessResult", f"readiness{T._counter(I, 'rd_n')}")
+        I.st.emit("readiness", stage=stage, upstream=ups, bypass=bypass, result=r, phase=I.getattr(r, "phase"))
+        return r
+
+    reg.contracts["stabilize.dag.readiness:evaluate_readiness"] = readiness
+    return reg
+
+
+def PyRaise_(exc):
+    from pyvc.values import PyRaise
+
+    return PyRaise(exc)
+
+
+def _ss_claim_txns(ctx):
+    return [t for t in T.transactions(ctx.st.effects)
+            if any(e.kind == "store_stage" and e.data["expected_phase"] is not SNone for e in t.effects)]
+
+
+def _ss_starting_effects(ctx):
+    """Everything that constitutes 'starting': planning, the plan commit, start messages, the started event."""
+    out = []
+    planned = set()
+    for e, _ in T.flat(ctx.st.effects):
+        if e.kind == "plan":
+            out.append(e)
+            if isinstance(e.data["stage"], SObj):
+                planned.add(e.data["stage"].oid)
+        elif e.kind == "push" and e.data["cls"] in ("StartTask",):
+            out.append(e)
+        elif e.kind == "event" and e.data["kind"] == "record_stage_started":
+            out.append(e)
+        elif e.kind == "store_stage" and e.data["expected_phase"] is SNone and isinstance(e.data["stage"], SObj) and e.data["stage"].oid in planned:
+            out.append(e)  # the plan commit (error-path stores write a freshly loaded stage and are not 'starting')
+    return out
+
+
+def _ss_ready(ctx):
+    """C03: whatever constitutes starting happens only after evaluate_readiness returned READY for the upstream list
+    loaded in this same handling, with jump_bypass true only if the stage's own context carried _jump_bypass."""
+    I = ctx.I
+    stage = loaded_stage(ctx)
+    if stage is None:
+        return []
+    claim = _ss_claim_txns(ctx)
+    starting = [e for e in _ss_starting_effects(ctx) if e.kind != "store_stage"] + [t for t in claim]
+    if not starting:
+        return []
+    rds = [e for e in ctx.st.effects if e.kind == "readiness"]
+    ups = [e for e in ctx.st.effects if e.kind == "load" and e.data["kind"] == "stage_list" and e.data["how"] == "upstream"]
+    goals = [("readiness-evaluated-once", z3.BoolVal(len(rds) == 1 and len(ups) == 1))]
+    if len(rds) != 1 or len(ups) != 1:
+        return goals
+    rd = rds[0]
+    ready = rd.data["phase"].t == ctx.I.enum_member(ctx.I.index.find_class("PredicatePhase"), "READY").t
+    goals.append(("phase-ready", ready))
+    same_list = isinstance(rd.data["upstream"], type(ups[0].data["obj"])) and rd.data["upstream"].lid == ups[0].data["obj"].lid
+    goals.append(("same-upstream-list", z3.BoolVal(same_list)))
+    goals.append(("same-stage", z3.BoolVal(isinstance(rd.data["stage"], SObj) and rd.data["stage"].oid == stage.oid)))
+    ld = T.loaded_info(I, stage)
+    key = I.ops.lit("_jump_bypass").t
+    had = z3.And(z3.Select(ld["ctx_has"], key), __import__("pyvc.ops", fromlist=["val_truthy"]).val_truthy(z3.Select(ld["ctx_vals"], key)))
+    goals.append(("bypass-only-from-own-context", z3.Implies(I.ops.truthy(rd.data["bypass"]), had)))
+    return goals
+
+
+def _ss_claim_first(ctx):
+    """C04: planning, the _join_fired write, the plan commit, start messages and the started event all come after a
+    committed claim transaction that stores RUNNING under expected_phase = the loaded status, which is NOT_STARTED or
+    (zombie) RUNNING with no tasks and no synthetic stages."""
+    I = ctx.I
+    stage = loaded_stage(ctx)
+    if stage is None:
+        return []
+    starting = _ss_starting_effects(ctx)
+    if not starting:
+        return []
+    ld = T.loaded_info(I, stage)
+    claims = [t for t in _ss_claim_txns(ctx) if t.committed]
+    goals = [("claimed", z3.BoolVal(len(claims) == 1))]
+    if len(claims) != 1:
+        return goals
+    c = claims[0]
+    first_start = min(ctx.st.effects.index(e) if e in ctx.st.effects else 10 ** 9 for e in starting)
+    commit_pos = next(i for i, e in enumerate(ctx.st.effects) if e.kind == "txn_commit" and e.data["txn"] == c.tid)
+    goals.append(("claim-commits-before-starting", z3.BoolVal(commit_pos < first_start)))
+    se = [e for e in c.effects if e.kind == "store_stage"][0]
+    exp = se.data["expected_phase"]
+    lds = ld["status"].t
+    name_of_loaded = I.enum_getattr(SEnum(WS, lds), "name")
+    goals.append(("expected-phase-is-loaded-status", I.ops.eq(exp, name_of_loaded)))
+    goals.append(("stores-running", se.data["snap"]["status"].t == status(I, "RUNNING")))
+    tasks_lid = ld["tasks_lid"]
+    no_tasks = I.ops.base_len(tasks_lid, ()) == 0
+    syn = [e.data["obj"] for e in ctx.st.effects if e.kind == "load" and e.data["kind"] == "stage_list" and e.data["how"] == "synthetic"]
+    no_syn = (I.ops.list_len(syn[0]) == 0) if syn else FALSE
+    goals.append(("from-not-started-or-zombie", z3.Or(lds == status(I, "NOT_STARTED"), z3.And(lds == status(I, "RUNNING"), no_tasks, no_syn))))
+    return goals
+
+
+def _ss_loser_silent(ctx):
+    """C04: when the claim transaction fails with ConcurrencyError nothing else happens (no plan, push, event)."""
+    goals = []
+    for t in _ss_claim_txns(ctx):
+        if t.rolled_back:
+            failed = any(e.kind == "store_stage" and e.data.get("failed") for e in t.effects)
+            if failed:
+                pos = next(i for i, e in enumerate(ctx.st.effects) if e.kind == "txn_rollback" and e.data["txn"] == t.tid)
+                later = [e for e in ctx.st.effects[pos + 1:] if e.kind in ("plan", "push", "queue_push", "event", "store_stage", "standalone", "foreach")]
+                goals.append((f"txn{t.tid}", z3.BoolVal(not later)))
+    return goals
+
+
+def _ss_claims(ctx):
+    """C11: the transaction that stores NOT_STARTED -> RUNNING acquires the mutex claim (steal only from a finished owner)
+    when mutex_key is set and the choice claim when a group is set; a refused claim aborts the transaction; the loser
+    of a choice commits mark + CancelStage, the loser of a mutex re-queues StartStage."""
+    I = ctx.I
+    stage = loaded_stage(ctx)
+    goals = []
+    for t in _ss_claim_txns(ctx):
+        if not t.committed:
+            continue
+        cl = [e for e in t.effects if e.kind == "claim"]
+        mk = I.getattr(stage, "mutex_key")
+        grp = I.getattr(stage, "deferred_choice_group")
+        has_m = [e for e in cl if I.ops.eq(e.data["args"][1], I.ops.fmt("mutex:{}", [mk])) is not None and "steal_if_owner_terminal" in e.data["kwargs"]]
+        has_c = [e for e in cl if "steal_if_owner_terminal" not in e.data["kwargs"]]
+        goals.append((f"txn{t.tid}.mutex-claimed", z3.Implies(I.ops.truthy(mk), z3.BoolVal(bool(has_m)))))
+        goals.append((f"txn{t.tid}.choice-claimed", z3.Implies(I.ops.truthy(grp), z3.BoolVal(bool(has_c)))))
+        for n, e in enumerate(cl):
+            goals.append((f"txn{t.tid}.claim{n}.granted", e.data["result"]))
+            goals.append((f"txn{t.tid}.claim{n}.for-this-stage", I.ops.eq(e.data["args"][2], I.getattr(stage, "id"))))
+            goals.append((f"txn{t.tid}.claim{n}.same-execution", I.ops.eq(e.data["args"][0], I.getattr(ctx.extra["message"], "execution_id"))))
+        for e in has_m:
+            goals.append((f"txn{t.tid}.mutex-key", I.ops.eq(e.data["args"][1], I.ops.fmt("mutex:{}", [mk]))))
+        for e in has_c:
+            goals.append((f"txn{t.tid}.choice-key", I.ops.eq(e.data["args"][1], I.ops.fmt("choice:{}", [grp]))))
+            goals.append((f"txn{t.tid}.choice-never-steals", z3.BoolVal("steal_if_owner_terminal" not in e.data["kwargs"])))
+    return goals
+
+
+def _ss_guard(ctx):
+    """C02/C10: a StartStage for a stage that is neither NOT_STARTED nor a zombie does nothing at all."""
+    I = ctx.I
+    stage = loaded_stage(ctx)
+    if stage is None:
+        return []
+    ld = T.loaded_info(I, stage)
+    lds = ld["status"].t
+    acts = [e for e, _ in T.flat(ctx.st.effects) if e.kind in ("plan", "event", "claim")
+            or (e.kind == "push" and e.data["cls"] in ("StartTask", "SkipStage", "CancelStage"))]
+    if not acts:
+        return []
+    # (the TERMINAL-after-max-retries and the error paths act on a stage that is not ready; they are legal writes (C06)
+    # and are not 'starting')
+    tasks_lid = ld["tasks_lid"]
+    no_tasks = I.ops.base_len(tasks_lid, ()) == 0
+    syn = [e.data["obj"] for e in ctx.st.effects if e.kind == "load" and e.data["kind"] == "stage_list" and e.data["how"] == "synthetic"]
+    no_syn = (I.ops.list_len(syn[0]) == 0) if syn else FALSE
+    return [("", z3.Or(lds == status(I, "NOT_STARTED"), z3.And(lds == status(I, "RUNNING"), no_tasks, no_syn)))]
+
+
+def _ss_t1_exempt(ctx, t):
+    # claim transaction (compensated by zombie resumption, C01/RES) and the two error paths that hand over to CompleteStage
+    if any(e.kind == "store_stage" and e.data["expected_phase"] is not SNone for e in t.effects):
+        return True
+    ps = txn_pushes(t)
+    if len(ps) == 1 and ps[0].data["cls"] == "CompleteStage" and not any(e.kind == "mark" for e in t.effects):
+        return True
+    return False
+
+
+def _ss_plan_commit(ctx):
+    """C05/T2 + C01: the plan commit stores the planned stage, marks the message and pushes at least one start message
+    (before-stage StartStage, first StartTask, after-stage StartStage or CompleteStage)."""
+    I = ctx.I
+    goals = []
+    for t in P.committed_txns(ctx):
+        se = [e for e in t.effects if e.kind == "store_stage" and e.data["expected_phase"] is SNone]
+        if not se or not any(e.kind == "plan" for e in ctx.st.effects):
+            continue
+        ps = [b for e in t.effects for b, _ in T.flat([e]) if b.kind == "push"]
+        goals.append((f"txn{t.tid}.has-start-message", z3.BoolVal(bool(ps))))
+        goals.append((f"txn{t.tid}.kinds", z3.BoolVal(all(p.data["cls"] in ("StartStage", "StartTask", "CompleteStage") for p in ps))))
+    return goals
+
+
+def start_stage():
+    obls = [
+        Obl("C03/handler/dominated-by-READY", _ss_ready, when="any"),
+        Obl("C04/claim-first", _ss_claim_first, when="any"),
+        Obl("C04/loser-silent", _ss_loser_silent, when="any"),
+        Obl("C02/once-per-iteration/StartStage", _ss_claim_first, when="any"),
+        Obl("C11/claim-in-claim-txn", _ss_claims, when="any"),
+        Obl("C02/guard/StartStage", _ss_guard, when="any"),
+        Obl("C10/absorb/StartStage", _ss_guard, when="any"),
+        Obl("C01/T1/StartStage", P.t1_processed_with_effects(_ss_t1_exempt), when="any"),
+        Obl("C02/T1/StartStage", P.t1_processed_with_effects(_ss_t1_exempt), when="any"),
+        Obl("C09/T1/StartStage", P.t1_processed_with_effects(_ss_t1_exempt), when="any"),
+        Obl("C01/T7/StartStage", P.t7_no_split, when="any"),
+        Obl("C01/RES/StartStage.plan-commit", _ss_plan_commit, when="any"),
+        Obl("C05/T2/StartStage", _ss_plan_commit, when="any"),
+        Obl("C06/T3/StartStage", P.t3_legal_write(), when="any"),
+        Obl("C06/stage-never-redirect/StartStage", P.stage_status_never_redirect, when="any"),
+    ]
+    return handler_unit("*", "L2/StartStage", H + "start_stage.handler:StartStageHandler", "StartStage", obls,
+                        registry=start_stage_registry())
+
+
+ALL.append(start_stage)
